@@ -13,6 +13,7 @@ import (
 )
 
 type Ctx struct {
+	defBody map[string]string // bodies of define-fun abbreviations
 	eng     *Engine
 	mode    string // "int" | "bv"
 	decls   []string
@@ -85,6 +86,10 @@ func (c *Ctx) define(prefix, term, sort string) string {
 	c.nfresh++
 	n := fmt.Sprintf("%s!%d", sanitize(prefix), c.nfresh)
 	c.decls = append(c.decls, fmt.Sprintf("(define-fun %s () %s %s)", n, sort, term))
+	if c.defBody == nil {
+		c.defBody = map[string]string{}
+	}
+	c.defBody[n] = term
 	return n
 }
 
@@ -192,6 +197,12 @@ func (c *Ctx) sortOf(t types.Type) string {
 		c.decl("sort:Txt", "(declare-sort Txt 0)")
 		return "Txt"
 	}
+	if isGoSliceLike(t) {
+		return "Slice"
+	}
+	if isGoStringLike(t) {
+		return "Str"
+	}
 	switch u := t.Underlying().(type) {
 	case *types.Basic:
 		switch {
@@ -259,6 +270,13 @@ func unsupported(msg string) error    { return unsupportedErr{msg} }
 
 // zero value term of a sort for a Go type
 func (c *Ctx) zero(t types.Type) string {
+	if isGoSliceLike(t) {
+		z := c.idxLit(0)
+		return fmt.Sprintf("(mkslice 0 %s %s %s)", z, z, z)
+	}
+	if isGoStringLike(t) {
+		return c.strConst("")
+	}
 	switch u := t.Underlying().(type) {
 	case *types.Basic:
 		switch {
@@ -378,6 +396,12 @@ func (c *Ctx) inRange(term string, t types.Type) string {
 // typeInv: well-typedness facts for a freshly introduced symbolic value of type t
 // (integer ranges, slice shape, string shape).
 func (c *Ctx) typeInv(term string, t types.Type) string {
+	if isGoSliceLike(t) {
+		return c.sliceInv(term)
+	}
+	if isGoStringLike(t) {
+		return c.strInv(term)
+	}
 	switch u := t.Underlying().(type) {
 	case *types.Basic:
 		if u.Info()&types.IsInteger != 0 {
@@ -793,6 +817,14 @@ func (c *Ctx) convInt(x string, from, to types.Type) string {
 			v.Sub(v, m)
 		}
 		return c.intLit(v, to)
+	}
+	if fb == tb && fs != ts {
+		// same width, signedness change: piecewise linear (x is within its type's range)
+		m := pow2(uint(tb)).String()
+		if fs {
+			return fmt.Sprintf("(ite (>= %s 0) %s (+ %s %s))", x, x, x, m)
+		}
+		return fmt.Sprintf("(ite (< %s %s) %s (- %s %s))", x, pow2(uint(tb-1)).String(), x, x, m)
 	}
 	return c.wrapInt(x, to)
 }
